@@ -163,7 +163,14 @@ class HarnessModule:
                     done.append(fn)
                 elif not p.is_alive():
                     p.join()
-                    out[fn] = self._mk(fn, "RUNNER_ERR", f"worker exited with {p.exitcode}", time.time() - t0)
+                    if pc.poll(0.2):       # the result may have been sent between the two checks
+                        try:
+                            state, msg, secs = pc.recv()
+                        except EOFError:
+                            state, msg, secs = "RUNNER_ERR", "worker died", time.time() - t0
+                        out[fn] = self._mk(fn, state, msg, secs)
+                    else:
+                        out[fn] = self._mk(fn, "RUNNER_ERR", f"worker exited with {p.exitcode}", time.time() - t0)
                     done.append(fn)
                 elif time.time() - t0 > hard:
                     p.kill()
